@@ -4,7 +4,14 @@ import (
 	"fmt"
 
 	"verif/internal/sym"
+	"verif/spec/w65816"
 )
+
+// opName renders an opcode as "op61-adc-(d,x)" for job ids.
+func opName(op int) string {
+	e := w65816.Table[op]
+	return fmt.Sprintf("op%02x-%s-%s", op, w65816.MnNames[e.Mn], w65816.ModeNames[e.Mode])
+}
 
 // PropDef describes how one property is decided.
 type PropDef struct {
@@ -23,6 +30,7 @@ type PropDef struct {
 	SetupPkg    string
 	Setup       string
 	SingleSolver bool
+	Solver      string // primary solver back end (default z3)
 	Fallbacks   []string // solver back ends tried when z3 answers unknown
 	TimeoutQuickMs, TimeoutThoroughMs int
 	ConformanceQuick, ConformanceThorough int
@@ -38,6 +46,13 @@ func (p *PropDef) timeoutMs(tier string) int {
 		return p.TimeoutQuickMs
 	}
 	return 60000
+}
+
+func (p *PropDef) solver() string {
+	if p.Solver != "" {
+		return p.Solver
+	}
+	return "z3"
 }
 
 func (p *PropDef) overlay() (map[string][]byte, error) {
@@ -71,9 +86,32 @@ func job(pkg, fn string, id string, args ...int64) sym.Job {
 	return sym.Job{ID: id, Pkg: "verif/harness/" + pkg, Func: fn, Args: args}
 }
 
+var cpuNames = []string{"main", "alt"}
+
 var mapperNames = []string{"lorom", "hirom", "exhirom", "sa1rom"}
 
 func init() {
+	props = append(props, &PropDef{
+		ID: "C01", Title: "Both 65C816 interpreters execute native-mode code per the WDC model", Level: "model_checking",
+		Solver: "z3-new", Fallbacks: []string{"cvc5"}, TimeoutQuickMs: 20000,
+		Patterns: []string{"verif/harness/c01"},
+		Jobs: func(tier string) []sym.Job {
+			var js []sym.Job
+			for cpu := 0; cpu < 2; cpu++ {
+				for op := 0; op < 256; op++ {
+					for mx := 0; mx < 4; mx++ {
+						m, x := mx>>1, mx&1
+						js = append(js, job("c01", "Step", fmt.Sprintf("c01/%s/%s/m%dx%d", cpuNames[cpu], opName(op), m, x), int64(cpu), int64(op), int64(m), int64(x)))
+					}
+				}
+			}
+			return js
+		},
+		Bounds:      []string{"one instruction (Step is loop-free; MVN/MVP move one byte per Step) from an arbitrary native-mode state", "all 256 opcodes x 4 (m,x) settings x 2 interpreters enumerated as separate jobs; every register, flag, hidden register copy and all 16 MiB of memory symbolic", "instruction sequences: by induction, the post-state again satisfies the only invariant assumed of the pre-state (flag bytes in {0,1})"},
+		Outside:     []string{"emulation mode (E=1 before the step)", "pending interrupts", "decimal ADC/SBC with invalid BCD digits; the V flag after decimal ADC/SBC", "WAI/STP wake-up", "cycle counts (C02/C12)"},
+		Explanation: "real Step of either interpreter vs. spec/w65816 reference on the abstraction of the same symbolic pre-state and memory; one labelled obligation per architectural component",
+		ConformanceQuick: 64, ConformanceThorough: 2048,
+	})
 	props = append(props, &PropDef{
 		ID: "C04", Title: "PakAddressToBus is a right inverse of BusAddressToPak", Level: "model_checking",
 		Patterns: []string{"verif/harness/c04"},
